@@ -103,8 +103,14 @@ func init() {
 		Batches:      func(tier string) int { return 16 },
 		RaceBatches:  func(tier string) int { return 8 },
 		ChildTimeout: func(string) time.Duration { return 20 * time.Minute },
-		Run:          runC17,
-		Required:     []string{"histories_checked", "histories_with_overlap", "race_runs", "component_forkchoice", "component_pubkeys", "component_attpool", "component_syncpool", "component_simplepools"},
+		RaceChildTimeout: func(tier string) time.Duration {
+			if fw.Quick(tier) {
+				return 6 * time.Minute
+			}
+			return 20 * time.Minute
+		},
+		Run:      runC17,
+		Required: []string{"histories_checked", "histories_with_overlap", "race_runs", "component_forkchoice", "component_pubkeys", "component_attpool", "component_syncpool", "component_simplepools"},
 	})
 }
 
